@@ -190,14 +190,14 @@ def run(ctx):
     quick = ctx.tier == "quick"
     items = []
     for config in configs(ctx.tier):
-        depth = (4 if config["checks"] else 3) if quick else (6 if len(config["checks"]) == 2 else 8)
+        depth = (5 if config["checks"] else 4) if quick else (6 if len(config["checks"]) == 2 else 8)
         items.append((config, depth, True))
     if not quick:
         for config in configs("quick")[::3]:
             items.append((config, 4, False))
     items.sort(key=lambda item: -item[1] * (1 + len(item[0]["checks"])))
     ctx.bound = {"configurations": len(items), "formats": ["delimited", "fixed"], "header": "0..1", "line delimiters": ["lf", "cr", "crlf", "any"],
-                 "depth": "quick 3-4 rows, thorough 6-8 rows with merging plus unmerged depth 4", "row shapes": "accepted rows, duplicate key, one bad cell per column, two bad cells, too long for the width, one item short / long, empty row"}
+                 "depth": "quick 4-5 rows, thorough 6-8 rows with merging plus unmerged depth 4", "row shapes": "accepted rows, duplicate key, one bad cell per column, two bad cells, too long for the width, one item short / long, empty row"}
     ctx.rule = ("BFS over row sequences with product-state merging (check objects + writer location x model); every write is compared as a stream delta; after each sequence the writer is "
                 "closed (end verdict) and the output is read back under a fresh CID; non-trivial = sequence with a rejected row or failing end verdict")
     ctx.assumptions = ["header rows are well-shaped (the statement is silent about malformed header rows)",
